@@ -244,6 +244,9 @@ def archive_specs(tier):
               "crc": "substream", "header": "lzma", "reduced": True})
     S.append({"label": "mini copy substream-crc/copy+crc", "kind": "mini", "folders": [("copy", M2)],
               "crc": "substream", "header": "copy", "reduced": True})
+    # two members in one folder, only the folder CRC stored: nothing but Worker.decompress's end-of-folder check guards them
+    S.append({"label": "mini copy solid folder-crc only/raw", "kind": "mini", "folders": [("copy", M2)],
+              "crc": "folder", "header": "raw", "reduced": True})
     if tier != "quick":
         for ch in ["copy", "lzma2", "lzma", "deflate", "bzip2", "zstd", "ppmd", "brotli", "delta+lzma2", "x86+lzma2",
                    "arm+lzma", "x86+deflate", "x86+bzip2"]:
@@ -929,7 +932,7 @@ class _FakeFp:
         return 0
 
     def tell(self):
-        return 1 << 40
+        return 0                     # = src_end of every scripted folder: the packed stream is exactly consumed
 
 
 class _FakeDecomp:
